@@ -134,8 +134,10 @@ func (vm *VM) Run(globals Object, args ...Object) (Object, error) {
 		return nil, errors.New("invalid Bytecode")
 	}
 
+	verifSync("run.enter", vm)
 	vm.err = nil
 	vm.abort.Store(0)
+	verifSync("run.reset", vm)
 	vm.initGlobals(globals)
 	vm.initLocals(args)
 	vm.initCurrentFrame()
@@ -154,6 +156,7 @@ func (vm *VM) Run(globals Object, args ...Object) (Object, error) {
 	for run := true; run; {
 		run = vm.run()
 	}
+	verifSync("run.exit", vm)
 	if vm.err != nil {
 		return nil, vm.err
 	}
@@ -1655,6 +1658,7 @@ func (inv *Invoker) Invoke(args ...Object) (Object, error) {
 	if inv.child != nil && inv.child.Aborted() {
 		return Undefined, ErrVMAborted
 	}
+	verifSync("invoke.checked", inv.child)
 	if inv.isCompiled {
 		if inv.child == nil {
 			return Undefined, ErrNotCallable.NewError(
@@ -1706,6 +1710,7 @@ func (v *vmPool) acquire(cf *CompiledFunction, usePool bool) *VM {
 }
 
 func (v *vmPool) _acquire(vm *VM, cf *CompiledFunction) *VM {
+	defer verifSync("pool.acquired", vm) // runs after the unlock below
 	v.mu.Lock()
 	defer v.mu.Unlock()
 
@@ -1733,6 +1738,7 @@ func (v *vmPool) release(vm *VM) {
 }
 
 func (v *vmPool) _release(vm *VM) {
+	verifSync("pool.release", vm)
 	v.mu.Lock()
 	delete(v.vms, vm)
 	v.mu.Unlock()
